@@ -38,7 +38,8 @@ TECHNIQUE = ('runtime monitoring: metamorphic relation monitor over families of 
 LEVEL_TEXT = ('Random compounds over all atoms with neutron data are pushed through families of related calls and the '
               'documented relations between the results are checked to 1e-10 (1e-12 for the unit conversions); the '
               'relations are exact consequences of the property text, so no reference model is trusted, but only the '
-              'sampled compounds, densities, scale factors, groupings and wavelength vectors are covered.')
+              'sampled compounds, densities, scale factors, groupings and wavelength vectors are covered.'
+              ' Added in rounds 4-7: the other documented entry points (package-level aliases, Formula.neutron_sld) by wavelength and by energy, exact instrument wavelengths (1.798 A), zero-count atoms listed first.')
 LEVEL_NOTE = ('Trusted: numpy, the physical constants in periodictable.constants (used only for the 1e-12 conversion '
               'postconditions and cross-pinned by the documented anchors), the compound generator pvmon/gen/compounds.py '
               '(self-checked: every rendering tree is folded back to the multiset before use).')
